@@ -663,6 +663,8 @@ class C18Executor(Executor):
         self.unshaped_keys = tuple(unshaped_keys)
 
     def apply_contract(self, st, c, args, kwargs, node):
+        if c.target.endswith("::SharePointRestClient._get_json") and len(args) >= 2 and self.inline_depth == 0:
+            st.ghost["requested"] = st.ghost.get("requested", ()) + (args[1],)      # which URLs this activation asks the server for
         if c.target.endswith("::SharePointRestClient.list_files_filtered") and len(args) >= 2 and isinstance(args[1], VRef) \
                 and st.obj(args[1].ref).kind == "obj" and st.obj(args[1].ref).cls == "FileFilter":
             return self.delegate_filtered(st, c, args, kwargs, node)
@@ -1330,6 +1332,7 @@ JSON_OK = z3.Function("json_parses", S, B)
 LOADS = z3.Function("json_loads", S, JsonS)
 DUMPS = z3.Function("json_dumps", JsonS, S)
 BLEN = z3.Function("bytes_len", BytesS, I)
+BSTRIP = z3.Function("bytes_strip", BytesS, BytesS)
 DEC_OK = z3.Function("utf8_decodes", BytesS, B)
 DEC = z3.Function("utf8_decode", BytesS, S)
 DEC_REPL = z3.Function("utf8_decode_replace", BytesS, S)
@@ -1443,10 +1446,22 @@ def m_urlparse(ex, st, args, kwargs, node):
 QUOTE = z3.Function("url_quote", S, S)
 
 
+QUOTE2 = z3.Function("url_quote_safe", S, S, S)          # urllib.parse.quote(s, safe=...)
+UNQUOTE = z3.Function("percent_decode", S, S)           # what a server does once with the request path
+HAS_ESC = z3.Function("has_percent_escape", S, B)       # the string contains '%' followed by two hex digits
+
+
 def m_quote(ex, st, args, kwargs, node):
-    """urllib.parse.quote: ASSUMED total on str (uninterpreted)."""
-    if args and isinstance(args[0], VStr):
-        return [(st, VStr(QUOTE(args[0].t)))]
+    """urllib.parse.quote(s, safe): ASSUMED total on str, with the library fact that decides whether the server sees
+    the string again: if '%' is not declared safe, percent-decoding the result gives s back; if '%' is declared safe,
+    it does so exactly when s contains no '%XX' escape (an existing escape is passed through and decoded by the server)."""
+    safe = kwargs.get("safe", args[1] if len(args) > 1 else VStr("/"))
+    if args and isinstance(args[0], VStr) and isinstance(safe, VStr) and safe.const() is not None:
+        x = args[0].t
+        q = QUOTE2(x, sv(safe.const()))
+        back = UNQUOTE(q) == x
+        st.assume(back if "%" not in safe.const() else (back == z3.Not(HAS_ESC(x))))
+        return [(st, VStr(q))]
     return ex.havoc_call(st, "quote", args, node)
 
 
@@ -1515,6 +1530,7 @@ def install_transport_models(reg):
     reg.ext_models["json.loads"] = m_json_loads
     reg.ext_models["json.dumps"] = m_json_dumps
     reg.method_models[("Bytes", "decode")] = m_bytes_decode
+    reg.method_models[("Bytes", "strip")] = lambda ex, st, obj, args, kwargs, node: [(st, VExt("Bytes", BSTRIP(obj.t)))]
     reg.ext_models[("new", "urllib.request.Request")] = m_new_request
     reg.ext_models["urllib.parse.urlencode"] = m_urlencode
     reg.ext_models["urllib.parse.urlparse"] = m_urlparse
@@ -2262,10 +2278,24 @@ def part_c(reg):
             return z3.And(J_ISDICT(c.result.t), J_HAS(c.result.t, sv("folder")))   # only an object with a folder facet is returned
         return z3.BoolVal(False)
 
+    def gfp_addresses(c):
+        """Statement ("files of the requested folders, with their parent path"): the one lookup request addresses the
+        requested path -- the path component it sends, percent-decoded once (what the server does), is the requested
+        path without its outer slashes."""
+        urls = c.st.ghost.get("requested", ())
+        if len(urls) != 1 or not isinstance(urls[0], VStr):
+            raise ops.Unsupported("folder lookup does not make exactly one JSON request with a string URL")
+        parts = str_parts(urls[0].t)
+        last = parts[-1] if parts else None
+        if last is None or not (z3.is_app(last) and last.decl().name() == "url_quote_safe"):
+            raise ops.Unsupported("the lookup URL does not end with the percent-encoded path")
+        return UNQUOTE(last) == STRIPS(c.args["folder_path"].t)
+
     out.append(FnContract(
         target=f"{CLIENT}::SharePointRestClient._get_folder_by_path",
         params=[("self", CL), ("site_id", p_str()), ("folder_path", p_str()), ("drive_id", P_DRIVE)],
-        returns=gfp_returns, ensures=[("returns-None-or-a-folder-item", gfp_shape), ("responses-closed", closed)],
+        returns=gfp_returns, ensures=[("returns-None-or-a-folder-item", gfp_shape), ("responses-closed", closed),
+                                      ("the-request-addresses-the-requested-path-(percent-decoding-gives-it-back)", body_only(gfp_addresses))],
         raises=listing_raises(),
         modifies=("self",), frame=token_frame,
         note="body verified for shape and failure surface (404 -> None, everything else: client family, responses closed); "
@@ -2642,7 +2672,38 @@ def known_findings(kf, violations, repo, tier):
     return out
 
 
-EXTRA = [caches_policy]
+def native_listing_suite(repo, tier):
+    """BOUNDED stand-in for the parts that are only assumed symbolically (URL formats of _build_children_url and of the folder
+    lookup, the server's routing, lazy generator interleavings): the replayer's suite -- random and crafted fake Graph libraries,
+    every filter kind, fault injection at every request index -- run natively against the real code on every check."""
+    import json
+    import os
+    import subprocess
+    from pyvc.flow import ground_obligation
+    root = os.path.dirname(os.path.dirname(os.path.abspath(__file__)))
+    oid = "C18/client.py::SharePointRestClient/bounded#native-listing-suite-(fake-graph-libraries,-filters,-fault-injection)"
+    req = {"property": "C18", "obligation": oid, "suite": "quick" if tier == "quick" else "full", "repo": repo}
+    try:
+        p = subprocess.run(["/venv/bin/python", os.path.join(root, "replay", "run.py")], input=json.dumps(req), capture_output=True,
+                           text=True, timeout=1200, cwd=root, env=dict(os.environ, VERIF_REPO=repo))
+        lines = [l for l in p.stdout.splitlines() if l.startswith("{")]
+        res = json.loads(lines[-1]) if lines else {"note": (p.stderr or p.stdout)[-300:]}
+    except Exception as e:  # noqa
+        res = {"note": f"replay harness failed: {e}"}
+    if res.get("reproduced"):
+        o = ground_obligation(oid, False, f"{res.get('target')}: expected {res.get('expected')}; observed {res.get('observed')}"[:600], "client.py",
+                              kind="bounded", backend="native")
+        o["witness"] = res.get("inputs")
+    elif "reproduced" in res:
+        o = ground_obligation(oid, True, str(res.get("note", ""))[:300], "client.py", kind="bounded", backend="native")
+    else:
+        o = ground_obligation(oid, False, str(res.get("note", "no answer from the replayer"))[:300], "client.py", kind="bounded", backend="native",
+                              definite=False)
+    o["bounded"] = True
+    return {"obligations": [o], "functions": []}
+
+
+EXTRA = [caches_policy, native_listing_suite]
 
 TRUSTED = [
     "ISO-SEM: an ISO-8601 timestamp `base.frac tz` denotes `base tz` plus the fraction; 'Z' = +00:00; the first six fraction digits "
@@ -2684,7 +2745,8 @@ ASSUMPTIONS = [
 BOUNDED = [
     {"what": "native replay (replay/C18.py): random libraries of depth <= 3, <= 6 items per folder, page sizes 1..4, 10 fault kinds at "
              "every request index of 5+5 listings, 12 x 10 healthy filtered listings, 432 boundary (timestamp, bound) pairs",
-     "role": "witness search and validation of the assumed models only; no obligation is discharged by it"},
+     "role": "witness search and validation of the assumed models; since round 4 also the BOUNDED obligation `native-listing-suite` "
+             "(12 fault kinds incl. empty bodies, folder timestamps, percent-escape folder names), counted as bounded-ok, never as discharged"},
 ]
 
 # path pruning only: an undecided feasibility query keeps the path (sound); short budgets keep generation fast on
